@@ -380,6 +380,10 @@ func (fv *FV) specSel(env *SpecEnv, x SSel) Val {
 	if base.Go == nil {
 		fv.unsupported("spec: selector .%s on value without Go type", x.Sel)
 	}
+	// atomic.Pointer[T] holds a *T: field selection goes through it
+	if n, ok := types.Unalias(base.Go).(*types.Named); ok && n.Obj().Pkg() != nil && n.Obj().Pkg().Path() == "sync/atomic" && n.Obj().Name() == "Pointer" && n.TypeArgs() != nil && n.TypeArgs().Len() == 1 && base.S == "Int" {
+		base.Go = types.NewPointer(n.TypeArgs().At(0))
+	}
 	// find field (including promoted through embedded structs)
 	obj, index, _ := types.LookupFieldOrMethod(base.Go, true, env.pkgTypes(), x.Sel)
 	f, ok := obj.(*types.Var)
